@@ -121,6 +121,66 @@ mut("c19_control_load_iter_split", ["C19"], "control", "xfab/parameters.py",
 mut("c19_control_io_open", ["C19"], "control", "xfab/parameters.py",
     "        f=open(filename,\"w\")\n", "        import io\n        f=io.open(filename,\"w\")\n")
 
+# ------------------------------------------------------------------ C05 / C06
+UNIQ_T = "        (dummy, rows) = n.unique((a*n.random.rand(3)).sum(axis=1),\n                                   return_index=True)\n"
+UNIQ_L = UNIQ_T.replace("n.", "np.")
+mut("hkl_syscond_slot_pnma", ["C05", "C06"], "mutant", "xfab/sglib.py",
+    "        self.name = \"Pnma\"\n        self.crystal_system = \"orthorhombic\"\n        self.Laue = \"mmm\"\n        self.nsymop = 8\n        self.nuniq = 8\n        self.cell_choice = \"standard\"\n        self.syscond = [0, 0, 0, 0, 0, 0, 0, 0, 0, 0, 0, 0,\n                        2, 0, 0, 0, 2,",
+    "        self.name = \"Pnma\"\n        self.crystal_system = \"orthorhombic\"\n        self.Laue = \"mmm\"\n        self.nsymop = 8\n        self.nuniq = 8\n        self.cell_choice = \"standard\"\n        self.syscond = [0, 0, 0, 0, 0, 0, 0, 0, 0, 0, 0, 0,\n                        2, 0, 0, 0, 0,",
+    note="hk0: h=2n dropped for one group only")
+mut("hkl_segment_4m_tools", ["C05", "C06"], "mutant", "xfab/tools.py",
+    "                        [[ 1, 2,  0], [ 1, 1, 0], [ 0, 1, 0], [ 0, 0,  1]]])\n\n    # Hexagonal",
+    "                        [[ 1, 2,  0], [ 1, 1, 0], [ 1, 1, 0], [ 0, 0,  1]]])\n\n    # Hexagonal",
+    note="second segment of Laue 4/m, tools only")
+mut("hkl_scale_removed_laue", ["C05", "C06"], "mutant", "xfab/laue.py",
+    "        sintl_scale = 1.1", "        sintl_scale = 1.0",
+    note="loses reflections the baseline traversal reaches in -3 rhombohedral")
+mut("hkl_inversion_dropped", ["C05", "C06"], "mutant", "xfab/tools.py",
+    "    Rots = n.concatenate((spg.rot[:spg.nuniq],-spg.rot[:spg.nuniq]))", "    Rots = spg.rot[:spg.nuniq]",
+    note="Friedel mates missing for non-centrosymmetric groups")
+mut("hkl_ops_scalar_weight", ["C05", "C06"], "mutant", "xfab/laue.py",
+    "(Rots*np.random.rand(3,3)).sum(axis=2).sum(axis=1)", "(Rots*np.random.rand(1)).sum(axis=2).sum(axis=1)",
+    note="operators with equal entry sums collide")
+mut("hkl_weights_rounded", ["C05", "C06"], "mutant", "xfab/tools.py", UNIQ_T,
+    "        (dummy, rows) = n.unique((a*n.random.rand(3).round(1)).sum(axis=1),\n                                   return_index=True)\n",
+    note="stream-dependent collisions of distinct hkl")
+mut("hkl_projection_rounded", ["C05", "C06"], "mutant", "xfab/laue.py", UNIQ_L,
+    "        (dummy, rows) = np.unique(((a*np.random.rand(3)).sum(axis=1)).round(3),\n                                   return_index=True)\n",
+    note="collisions only for some streams")
+mut("hkl_int_weights", ["C05", "C06"], "mutant", "xfab/tools.py", UNIQ_T,
+    "        (dummy, rows) = n.unique((a*n.random.randint(1,50,3)).sum(axis=1),\n                                   return_index=True)\n")
+mut("hkl_sort_wrong_column", ["C06"], "mutant", "xfab/tools.py",
+    "    H =  H[n.argsort(H, 0)[:, 3], :] # sort hkl's according to stl\n    if output_stl == None:\n        H = H[: , :3]\n    return H\n\n\n\ndef genhkl(",
+    "    H =  H[n.argsort(H, 0)[:, 2], :] # sort hkl's according to stl\n    if output_stl == None:\n        H = H[: , :3]\n    return H\n\n\n\ndef genhkl(")
+mut("hkl_all_four_columns", ["C06"], "mutant", "xfab/laue.py",
+    "    if output_stl == False:\n        return Hall[:,:3]\n    else:\n        return Hall",
+    "    if output_stl is None:\n        return Hall[:,:3]\n    else:\n        return Hall")
+mut("hkl_unique_ignores_sintlmin", ["C05", "C06"], "mutant", "xfab/laue.py",
+    "                            if  sintlH > sintlmin and sintlH <= sintlmax:\n                                H = np.concatenate((H, [HLAST]))\n                                stl = np.concatenate((stl, [sintlH]))\n                        else: \n                            nref = nref - 1\n                    HNEW = HLAST + segm[segn, 1, :]\n                    sintlH = sintl(unit_cell, HNEW)\n                    #if (sintlH >= sintlmin) and (sintlH <= sintlmax):\n                    if sintlH <= sintlmax*sintl_scale:",
+    "                            if  sintlH > 0 and sintlH <= sintlmax:\n                                H = np.concatenate((H, [HLAST]))\n                                stl = np.concatenate((stl, [sintlH]))\n                        else: \n                            nref = nref - 1\n                    HNEW = HLAST + segm[segn, 1, :]\n                    sintlH = sintl(unit_cell, HNEW)\n                    #if (sintlH >= sintlmin) and (sintlH <= sintlmax):\n                    if sintlH <= sintlmax*sintl_scale:")
+mut("hkl_name_r_suffix_ignored", ["C05"], "mutant", "xfab/sg.py",
+    "                cell_choice = \"rhombohedral\"", "                cell_choice = cell_choice",
+    note="'R-3r' silently gives the hexagonal setting")
+mut("hkl_name_alias_wrong", ["C05"], "mutant", "xfab/sg.py",
+    "         \"p21/c\" : \"Sg14\",", "         \"p21/c\" : \"Sg13\",", note="by-name differs from by-number")
+mut("hkl_stl_column_rounded", ["C06"], "mutant", "xfab/tools.py",
+    "                                stl = n.concatenate((stl, [sintlH]))\n                        else: \n                            nref = nref - 1\n                    HNEW = HLAST + segm[segn, 1, :]\n                    sintlH = sintl(unit_cell, HNEW)\n                    #if (sintlH >= sintlmin) and (sintlH <= sintlmax):\n                    if sintlH <= sintlmax*sintl_scale:",
+    "                                stl = n.concatenate((stl, [round(sintlH, 5)]))\n                        else: \n                            nref = nref - 1\n                    HNEW = HLAST + segm[segn, 1, :]\n                    sintlH = sintl(unit_cell, HNEW)\n                    #if (sintlH >= sintlmin) and (sintlH <= sintlmax):\n                    if sintlH <= sintlmax*sintl_scale:",
+    note="fourth column (and order of near-degenerate rows) off")
+mut("hkl_hex_perm_dropped", ["C05", "C06"], "mutant", "xfab/laue.py",
+    "    elif crystal_system == 'trigonal' or crystal_system == 'hexagonal':", "    elif crystal_system == 'hexagonal':",
+    note="trigonal groups lose their index permutations")
+mut("hkl_control_exact_unique", ["C05", "C06"], "control", "xfab/tools.py", UNIQ_T,
+    "        (dummy, rows) = n.unique(a, axis=0, return_index=True)\n",
+    note="exact de-duplication, no draws, different row order inside a family")
+mut("hkl_control_unique_other_member", ["C05", "C06"], "control", "xfab/laue.py",
+    "    if output_stl == False:\n        return H[:,:3]\n    else:\n        return H\n    \n\ndef genhkl_base(",
+    "    H = H.copy()\n    H[:, :3] = -H[:, :3]\n    if output_stl == False:\n        return H[:,:3]\n    else:\n        return H\n    \n\ndef genhkl_base(",
+    note="another member (-h) of each family")
+mut("hkl_control_default_rng", ["C05", "C06"], "control", "xfab/tools.py", UNIQ_T,
+    "        (dummy, rows) = n.unique((a*n.random.random_sample(3)).sum(axis=1),\n                                   return_index=True)\n",
+    note="different draw function on the same global stream")
+
 if __name__ == "__main__":
     subprocess.check_call("rm -rf %s && mkdir -p %s" % (OUT, OUT), shell=True)
     index = []
